@@ -29,9 +29,13 @@ class Potential_Form_Registry(object):
        :param register_pymath_functions: If `True` make functions from the python math module available in cexprtk expressions."""
 
     self._potential_forms = {}
+    # Labels that _register_from_potentialforms() will claim at the end of registration
+    # (e.g. as.buck4 which only exists as a potential-form): they are taken from the start.
+    self._reserved_labels = set()
 
     if register_standard:
       self._potential_forms.update(self._register_standard())
+      self._reserved_labels = self._standard_potentialform_labels()
 
     self._potential_forms.update(self._build_table_forms(cfg.table_form))
 
@@ -66,6 +70,10 @@ class Potential_Form_Registry(object):
       potential_forms[name] = pf
     return potential_forms
 
+  def _standard_potentialform_labels(self):
+    from .. import potentialforms
+    return set([self._make_standard_name(name) for name, _pf in inspect.getmembers(potentialforms, _iscallable)])
+
   def _register_from_potentialforms(self, potential_forms):
     from .. import potentialforms
     for name, potential_form in inspect.getmembers(potentialforms, _iscallable):
@@ -79,7 +87,7 @@ class Potential_Form_Registry(object):
     for d in definitions:
       if d.signature.label in potential_forms:
         raise Potential_Form_Registry_Exception("Two potential forms have the same label in [Potential-Form] section: '{0}'".format(d.signature.label))
-      if d.signature.label in self._potential_forms:
+      if d.signature.label in self._potential_forms or d.signature.label in self._reserved_labels:
         raise Potential_Form_Registry_Exception("The label of a [Potential-Form] entry is already used by another potential form (for instance a [Table-Form]): '{0}'".format(d.signature.label))
       func = _Cexptrk_Potential_Function(d)
       pf = Potential_Form(func)
@@ -92,7 +100,7 @@ class Potential_Form_Registry(object):
     builder = Table_Form_Builder()
 
     for d in definitions:
-      if d.name in self._potential_forms or d.name in table_forms:
+      if d.name in self._potential_forms or d.name in table_forms or d.name in self._reserved_labels:
         raise Potential_Form_Registry_Exception("The label of [Table-Form:{0}] is already used by another potential form".format(d.name))
 
       pf = builder.create_potential_form(d)
